@@ -13,8 +13,9 @@ check(tier, seed):
          has been mutated through its own API (aliasing),
        * identical assignments give identical sequences whatever was built in between,
        * mappable register: exactly the requested traps, declared order, index targeting against it;
-  3. foreign-variable probe (finding F3, fixed in /repo): a call with a variable of another sequence
-     raises and must leave the sequence — `is_parametrized()`, call logs, schedule — alone;
+  3. refused-call probe (findings F3 and F40, fixed in /repo): a call with a variable of another sequence,
+     or with an OWN variable but refused for another reason (undeclared channel, invalid protocol), raises
+     and must leave the sequence — `is_parametrized()`, call logs, schedule — alone;
   4. evidence.
 The Lean model is not in the loop (no driver): the model side is exercised by the `decide`
 examples of Properties/C08.lean; state leakage cannot be exhibited by a functional model anyway.
@@ -425,25 +426,33 @@ def foreign_variable_probe(rng: random.Random, case: dict) -> Fail | None:
         return None
     other = ctx.new_template()
     fv = other.declare_variable("foreign", dtype=int)
+    own = seq.declare_variable("own_probe", dtype=int)
     ch = rng.choice(list(seq._schedule))
+    basis = list(seq._basis_ref)[0]
     before = pg.template_snapshot(seq, ctx, with_abstract=False)
-    kind = rng.choice(["delay", "phase_shift"])
+    # (what, err key, the refused call): a foreign variable; an OWN variable in a call that is refused for
+    # another reason (undeclared channel, invalid protocol, a second argument with a foreign variable)
+    probes = [
+        ("delay", "foreignVariable", lambda: seq.delay(fv, ch)),
+        ("shift", "foreignVariable", lambda: seq.phase_shift(fv, basis=basis)),
+        ("delay", "ownVariableRefused", lambda: seq.delay(own, "chan_nope")),
+        ("add", "ownVariableRefused",
+         lambda: seq.add(pulser.Pulse.ConstantPulse(own, 1.0, 0.0, 0.0), ch, protocol="bogus")),
+        ("shifti", "ownVariableRefused", lambda: seq.phase_shift_index(own, fv, basis=basis)),
+    ]
+    kind, err, call = rng.choice(probes)
     try:
         with warnings.catch_warnings():
             warnings.simplefilter("ignore")
-            if kind == "delay":
-                seq.delay(fv, ch)
-            else:
-                seq.phase_shift(fv, basis=list(seq._basis_ref)[0])
-        return Fail("foreign-variable-accepted", f"{kind} with a foreign variable did not raise", {}, prop="C09")
+            call()
+        return Fail("refused-call-accepted", f"{kind} ({err}) did not raise", dict(op=kind, err=err), prop="C09")
     except Exception:  # noqa: BLE001
         pass
     after = pg.template_snapshot(seq, ctx, with_abstract=False)
     d = pg.diff_tol(before, after, "", 0.0)
     if d:
         return Fail("failed-call-not-atomic",
-                    f"{kind}(<variable of another sequence>) raises ValueError but changed the sequence: {d}",
-                    dict(op=kind if kind == "delay" else "shift", err="foreignVariable"), prop="C09")
+                    f"{kind} ({err}) raises but changed the sequence: {d}", dict(op=kind, err=err), prop="C09")
     return None
 
 
@@ -622,7 +631,7 @@ def check(tier: str, seed: int) -> int:
         made += 1
         res = run_case(case)
         handle(case, res, "generated")
-        if made % 10 == 0:
+        if made % 5 == 0:
             probes += 1
             f = foreign_variable_probe(rng, case)
             if f is not None:
